@@ -125,9 +125,24 @@ def _depth(d):
     return 1 + max(_depth(v) for v in d.values())
 
 
+def _aliased(d, alias):
+    """(value, object): with alias = [src, dst] and d[src] a dictionary, the value has d[dst] equal to d[src]
+    and the object holds the very same dictionary under both keys"""
+    obj = copy.deepcopy(d)
+    if alias and isinstance(d.get(alias[0]), dict) and alias[0] != alias[1]:
+        d = dict(d)
+        d[alias[1]] = copy.deepcopy(d[alias[0]])
+        obj = copy.deepcopy(d)
+        obj[alias[1]] = obj[alias[0]]
+    return d, obj
+
+
 def judge_pair(case):
     d1, d2, L = case["d1"], case["d2"], case["level"]
-    a, b = copy.deepcopy(d1), copy.deepcopy(d2)
+    # an argument may hold one sub-dictionary object at two places (no recursion: a DAG); as a value it is
+    # the dictionary with two equal sub-dictionaries
+    d1, a = _aliased(d1, case.get("alias1"))
+    d2, b = _aliased(d2, case.get("alias2"))
     i = intersection(a, b, level=L) if L != -1 or case.get("explicit", True) \
         else intersection(a, b)
     if a != d1 or b != d2:
@@ -271,14 +286,17 @@ def _mutations(d, draw_list):
     return d
 
 
+_alias = st.one_of(st.none(), st.none(), st.none(), st.permutations(["a", "b", "c"]).map(lambda p: list(p[:2])))
+
+
 def strat_generated(tier):
     base = gen.nested_dicts(keys=("a", "b", "c"), depth=3, leaf=_gen_leaf)
     mut = st.lists(st.tuples(st.integers(0, 50), st.sampled_from(["add", "del", "set"]),
                              st.one_of(_gen_leaf, st.just({}), st.just({"a": 0}))),
                    max_size=3)
     return st.builds(
-        lambda b, m1, m2, L: {"d1": _mutations(b, m1), "d2": _mutations(b, m2), "level": L},
-        base, mut, mut, st.sampled_from(LEVELS + [-1, -1]))
+        lambda b, m1, m2, L, al1, al2: {"d1": _mutations(b, m1), "d2": _mutations(b, m2), "level": L, "alias1": al1, "alias2": al2},
+        base, mut, mut, st.sampled_from(LEVELS + [-1, -1]), _alias, _alias)
 
 
 def strat_gen_triples(tier):
